@@ -19,6 +19,8 @@ from vsc.model.expr_array_subscript_model import ExprArraySubscriptModel
 from vsc.model.expr_bin_model import ExprBinModel
 from vsc.model.expr_cond_model import ExprCondModel
 from vsc.model.expr_in_model import ExprInModel
+from vsc.model.expr_indexed_dynref_model import ExprIndexedDynRefModel
+from vsc.model.expr_partselect_model import ExprPartselectModel
 from vsc.model.expr_range_model import ExprRangeModel
 from vsc.model.expr_rangelist_model import ExprRangelistModel
 from vsc.model.expr_unary_model import ExprUnaryModel
@@ -260,6 +262,23 @@ class ConstraintCopyBuilder(ModelVisitor):
                 self.expr(s.rhs))
         else:
             super().visit_expr_array_subscript(s)
+            
+    def visit_expr_partselect(self, e):
+        if self.do_copy_level > 0:
+            self._expr = ExprPartselectModel(
+                self.expr(e.lhs),
+                self.expr(e.upper),
+                None if e.lower is None else self.expr(e.lower))
+        else:
+            super().visit_expr_partselect(e)
+            
+    def visit_expr_indexed_dynref(self, e):
+        if self.do_copy_level > 0:
+            self._expr = ExprIndexedDynRefModel(
+                self.expr(e.root),
+                e.idx)
+        else:
+            super().visit_expr_indexed_dynref(e)
             
         
     def expr(self, e):
